@@ -64,6 +64,10 @@ CELLS = {
     "mono_alpha": ([4.0, 5.0, 6.5], [75.0, 90.0, 90.0]),
     "mono_beta": ([4.0, 5.0, 6.5], [90.0, 105.0, 90.0]),
     "mono_gamma": ([4.0, 5.0, 6.5], [90.0, 90.0, 60.0]),
+    # small rhombohedral cells: all six numbers of a box line are <= 60 (30 A, 60 deg) resp. < 60 -- the two-atom
+    # AMBER restart file, whose third line is either velocities or the box, has to tell them apart
+    "rhombo60": ([3.0, 3.0, 3.0], [60.0, 60.0, 60.0]),
+    "acute": ([3.0, 3.0, 3.0], [50.0, 55.0, 58.0]),
 }
 
 
@@ -302,7 +306,7 @@ def run_case(case, scratch, seed):
     cap = CAP[ext]
     rep = dict(zip(("ext", "n_atoms", "n_frames", "cell", "mag", "sign", "time", "opt"), case))
     tag = "%s|cell=%s|time=%s|frames=%s|opt=%s%s" % (ext, cell, timek, "1" if n_frames == 1 else "many", opt,
-                                                    "|natoms=1" if n_atoms == 1 else "")
+                                                    "|natoms=%d" % n_atoms if n_atoms <= 2 else "")
     d = os.path.join(scratch, "c01_%d_%s" % (os.getpid(), abs(hash(case)) % 10 ** 9))
     shutil.rmtree(d, ignore_errors=True)
     os.makedirs(d)
@@ -390,7 +394,7 @@ def cases(quick):
     atoms = [1, 9, 10] if quick else [1, 2, 9, 10, 13]
     frames = [1, 3] if quick else [1, 2, 3]
     cells = ["none", "ortho", "varying", "mono_alpha"] if quick else \
-        ["none", "cubic", "ortho", "triclinic", "varying", "mono_alpha", "mono_beta", "mono_gamma"]
+        ["none", "cubic", "ortho", "triclinic", "varying", "mono_alpha", "mono_beta", "mono_gamma", "rhombo60", "acute"]
     mags = [1.0, 90.0] if quick else [1e-3, 1.0, 90.0, 950.0]     # 950 nm = 9500 A: just under the %8.3f field limit
     signs = ["mixed"] if quick else ["mixed", "positive"]
     times = ["nonuniform"] if quick else ["default", "uniform", "nonuniform"]
@@ -404,6 +408,9 @@ def cases(quick):
             opts = [None]
         for c in itertools.product([ext], atoms, frames, cells, mags, signs, times, opts):
             out.append(c)
+        if quick:
+            for c in itertools.product([ext], [2], [1, 3], ["rhombo60"], [1.0], signs, times, opts[:1]):
+                out.append(c)
         # binary formats have no narrow text field: 20 000 nm along z only (XTC packs integers of x*1000 per axis)
         if CAP[ext]["q"] in (0.0,) or ext == "xtc":
             for c in itertools.product([ext], atoms, frames, ["none", "ortho"], [20000.0], ["z-long"], times[:1], opts):
